@@ -5,7 +5,8 @@ the resolution / environment model into lean/NunavutVerif/Gen/PydsdlClasses.lean
   * (name, bases) of every class reachable from pydsdl.Any through __subclasses__() (transitively, with nunavut
     imported so that nunavut.Namespace is included) plus every class reachable from those through __bases__ other
     than `object` (this is what DSDLTemplateLoader._type_to_template_internal walks: today that adds abc.ABC);
-  * what DSDLCodeGenerator._create_all_dsdl_tests() enumerates: the roots it starts from, the class that
+  * what DSDLCodeGenerator._create_all_dsdl_tests() enumerates: the roots it starts from (OBSERVED: the top-level calls of
+    _create_instance_tests_for_type; a root outside the pydsdl.Any tree brings its sub-tree into the table), the class that
     `_field_is_instance` redirects through `.data_type`, and the (test name -> class) map it returns, read from
     the closures;
   * CodeGenEnvironment.RESERVED_GLOBAL_NAMESPACES / RESERVED_GLOBAL_NAMES, the conventional-name prefixes of
@@ -75,6 +76,37 @@ def collect():
 
     walk(pydsdl.Any)
     classes = list(under_any)
+    # ---- what _create_all_dsdl_tests() enumerates, OBSERVED: the classes _create_instance_tests_for_type is called with at
+    # the top level.  A root outside the pydsdl.Any tree (e.g. an expression-value class) brings its sub-tree into the table.
+    top_calls, depth = [], [0]
+    orig_cm = DSDLCodeGenerator.__dict__["_create_instance_tests_for_type"]
+
+    def spy(cls, root):
+        if depth[0] == 0:
+            top_calls.append(root)
+        depth[0] += 1
+        try:
+            return orig_cm.__func__(cls, root)
+        finally:
+            depth[0] -= 1
+
+    DSDLCodeGenerator._create_instance_tests_for_type = classmethod(spy)
+    try:
+        tests = DSDLCodeGenerator._create_all_dsdl_tests()
+    finally:
+        DSDLCodeGenerator._create_instance_tests_for_type = orig_cm
+    if not top_calls or not all(isinstance(r, type) for r in top_calls):
+        raise TranslationError("cannot observe the roots _create_all_dsdl_tests enumerates from")
+
+    def walk_extra(c):
+        if c in classes:
+            return
+        classes.append(c)
+        for d in c.__subclasses__():
+            walk_extra(d)
+
+    for r in top_calls:
+        walk_extra(r)
     # close under __bases__ (minus object): the loader's search follows them whatever they are
     i = 0
     while i < len(classes):
@@ -82,10 +114,20 @@ def collect():
             if b is not object and b not in classes:
                 classes.append(b)
         i += 1
-    names = [_ident(c.__name__) for c in classes]
-    if len(set(names)) != len(names):
-        dup = sorted(n for n in set(names) if names.count(n) > 1)
-        raise TranslationError(f"two classes of the PyDSDL hierarchy share a __name__: {dup}; the table is keyed by name")
+    # the table is keyed by __name__; a class outside the pydsdl.Any tree whose __name__ is taken (pydsdl's expression `Any`)
+    # is keyed by its qualified name instead
+    key = {}
+    taken = set()
+    for c in classes:
+        k = _ident(c.__name__)
+        if k in taken:
+            if c in under_any:
+                raise TranslationError(f"two classes of the PyDSDL hierarchy share the __name__ {k!r}; the table is keyed by name")
+            k = _ident(c.__module__ + "." + c.__name__)
+            if k in taken:
+                raise TranslationError(f"two classes share the qualified name {k!r}")
+        taken.add(k)
+        key[c] = k
     # topological order: bases first (Kahn, stable w.r.t. discovery order)
     order, placed = [], set()
     pending = list(classes)
@@ -99,12 +141,12 @@ def collect():
                 progressed = True
         if not progressed:
             raise TranslationError("class graph is not acyclic?")
-    table = [(c.__name__, [b.__name__ for b in c.__bases__ if b is not object]) for c in order]
+    table = [(key[c], [key[b] for b in c.__bases__ if b is not object]) for c in order]
     # direct subclasses in __subclasses__() order must equal table order restricted to them (the model enumerates
     # subclasses in table order); only matters for which duplicate wins, but keep the tie exact
     pos = {n: k for k, (n, _) in enumerate(table)}
     for c in order:
-        subs = [d.__name__ for d in c.__subclasses__() if d in classes]
+        subs = [key[d] for d in c.__subclasses__() if d in classes]
         if sorted(subs, key=lambda n: pos[n]) != subs:
             raise TranslationError(f"__subclasses__() order of {c.__name__} is not table order: {subs}")
 
@@ -160,17 +202,11 @@ def collect():
                 raise TranslationError(f"search from {c.__name__} considered {spy.asked}, expected {exp} with stops {stops}")
 
     # ---- instance tests as the code enumerates them ------------------------------------------------------------
-    src_all = inspect.getsource(DSDLCodeGenerator._create_all_dsdl_tests)
-    # strip the docstring (it contains example calls)
-    body = re.sub(r'""".*?"""', "", src_all, flags=re.S)
-    roots = re.findall(r"_create_instance_tests_for_type\(\s*pydsdl\.(\w+)\s*\)", body)
-    if not roots or body.count("_create_instance_tests_for_type(") != len(roots):
-        raise TranslationError("cannot read the roots of _create_all_dsdl_tests from its source")
+    roots = [key[r] for r in top_calls]
     src_one = inspect.getsource(DSDLCodeGenerator._create_instance_tests_for_type)
     redirect = re.findall(r"isinstance\(\s*field_or_datatype\s*,\s*pydsdl\.(\w+)\s*\)", src_one)
     if len(redirect) != 1 or "field_or_datatype.data_type" not in src_one:
         raise TranslationError("cannot read the attribute redirection of _field_is_instance from its source")
-    tests = DSDLCodeGenerator._create_all_dsdl_tests()
     code_tests = []
     for tname, fn in tests.items():
         cells = [c.cell_contents for c in (fn.__closure__ or ())]
@@ -179,7 +215,7 @@ def collect():
             raise TranslationError(f"instance test {tname!r}: cannot identify the class it closes over")
         if cl[0] not in classes:
             raise TranslationError(f"instance test {tname!r} closes over {cl[0]!r}, not in the class table")
-        code_tests.append((tname, cl[0].__name__))
+        code_tests.append((tname, key[cl[0]]))
     code_tests.sort()
     for r in roots + redirect:
         if r not in pos:
